@@ -3,9 +3,10 @@ NEXT NNext
 CONSTANTS
   Mode = "pairs"
   Depth = 1
+  NFixed = {}
   NBug = "none"
   NVSpace = "d2"
   NCompoundV = "d1"
-  NKinds = {"isinstance", "issubclass", "typeis", "typeguard", "is", "eq", "in", "truthy", "len", "c_isinstance", "c_isvalue", "not", "and", "or", "deep"}
+  NKinds = {"isinstance", "issubclass", "typeis", "typeguard", "is", "eq", "in", "truthy", "len", "c_isinstance", "c_isvalue", "match", "not", "and", "or", "deep"}
 INVARIANT EmitDone
 CHECK_DEADLOCK FALSE
